@@ -150,7 +150,14 @@ func (r *Remote) Serve() error {
 			// FIXME: Anything we can do with error handling here?
 			go r.handleRequest(msg)
 		} else if len(msg.ID) > 0 {
-			r.getPendingChan(string(msg.ID)) <- *msg
+			// Never block the read loop on a response: a repeated response
+			// that nobody is waiting for would otherwise stall every other
+			// call on this connection forever.
+			select {
+			case r.getPendingChan(string(msg.ID)) <- *msg:
+			default:
+				logger.Printf("Remote.Serve(): Dropping repeated response: %s", msg)
+			}
 		} else {
 			logger.Printf("Remote.Serve(): Dropping invalid message: %s", msg)
 		}
